@@ -155,7 +155,7 @@ def run(ctx):
     disagreements, violations, samples = [], [], []
     feats = {}
     nontrivial = 0
-    for i in range(ctx.n(200, 4000)):
+    for i in range(ctx.n(200, 2000)):
         daq = i % 6 == 5
         if daq:
             segs = gen_daqmx.draw(ctx.rnd)
